@@ -1240,6 +1240,11 @@ class Index:
             self.update(entries)
             # Extensions have already been read by read_index_dict_with_version
             sha1_reader.check_sha(allow_empty=True)
+            # The checksum ends the file. If anything follows, the entries
+            # were mis-parsed and the bytes just checked (possibly accepted
+            # as the all-zero index.skipHash checksum) are not the trailer.
+            if f.read(1):
+                raise ValueError("Trailing data after index checksum")
         finally:
             f.close()
 
